@@ -55,8 +55,10 @@ def run(ctx):
     for k in range(16 if ctx.thorough else 4):
         j = e2ejobs.job(rng, fmt=fmts[k % 3], size='small', strategy=['ddmin', 'hierarchical', 'hybrid'][k % 3])
         j['cmd'] = [e2e.TOKPRED, ['bytes', 'eol', 'sup', 'eol'][k % 4]] + j['cmd'][2:]      # ... or is a superstring of the golden text      # ... or in one undecodable byte against its escaped spelling
-        if k % 3 == 2:
-            j['opts'] = j['opts'] + ['--ignore-out']        # then stderr alone decides
+        if k % 3 == 2 and j['cmd'][1] != 'bytes':
+            # then stderr alone decides (mode bytes differs on stdout only: with stdout ignored every candidate would match
+            # and the verdicts of the command log would say nothing about what was accepted)
+            j['opts'] = j['opts'] + ['--ignore-out']
         j['timeout'] = 120
         jobs.append(j)
     # a cross-check program that has the SAME FILE NAME as the command but lives elsewhere and is another program
